@@ -811,7 +811,21 @@ pub(crate) fn drive<P: ParallelIterator>(p: &P, short: Short) -> Vec<(usize, Vec
             c.n_nested += 1;
         }
     });
-    let workers = if !active || (depth > 0 && nested_inline) { 1 } else { pool.min(n) };
+    let mut workers = if !active || (depth > 0 && nested_inline) { 1 } else { pool.min(n) };
+    if workers > 1 {
+        let ok = simctx::with(|c| {
+            if c.spawn_budget >= workers as u64 {
+                c.spawn_budget -= workers as u64;
+                true
+            } else {
+                c.n_budget_inline += 1;
+                false
+            }
+        });
+        if !ok {
+            workers = 1;
+        }
+    }
     simctx::log(simctx::EV_PAR, n as u64, workers as u64);
 
     if workers <= 1 {
